@@ -435,7 +435,7 @@ func c36GenCfg(t *rapid.T, label string, base *c36Cfg) *c36Cfg {
 	}
 	c.as = c36Pick(t, label+"_as", has, b.as, c36GlobalASNs)
 	// rare: the whole protocols section is absent
-	c.noProto = rapid.IntRange(0, 39).Draw(t, label+"_noproto") == 0
+	c.noProto = rapid.IntRange(0, 39).Draw(t, label+"_noproto") == 39
 
 	// policy statements
 	seen := map[string]bool{}
